@@ -79,6 +79,29 @@ func canon(v ssa.Value, names map[ssa.Value]string, depth int) string {
 			a, b = b, a
 		}
 		return op + "(" + a + "," + b + ")"
+	case *ssa.Call:
+		// a pure arithmetic helper (`chunksNeeded(cardinality)`: one block, one return of an expression
+		// over its parameters) is the expression it returns, with the arguments in place of the parameters
+		f := x.Call.StaticCallee()
+		if f == nil || len(f.Blocks) != 1 || len(f.Params) != len(x.Call.Args) || f.Signature.Results().Len() != 1 {
+			return "?call"
+		}
+		ret, ok := f.Blocks[0].Instrs[len(f.Blocks[0].Instrs)-1].(*ssa.Return)
+		if !ok || len(ret.Results) != 1 {
+			return "?call"
+		}
+		for _, in := range f.Blocks[0].Instrs {
+			switch in.(type) {
+			case *ssa.BinOp, *ssa.Convert, *ssa.ChangeType, *ssa.Return, *ssa.DebugRef:
+			default:
+				return "?call"
+			}
+		}
+		inner := map[ssa.Value]string{}
+		for i, p := range f.Params {
+			inner[p] = canon(x.Call.Args[i], names, depth+1)
+		}
+		return canon(ret.Results[0], inner, depth+1)
 	}
 	return "?"
 }
